@@ -12,15 +12,15 @@ TECHNIQUE = 'runtime monitoring: configuration matrix driven under a determinist
 RULE = ('the matrix {subscriber states spied / not} x {subscriber constructed instrumented / not} x {named / unnamed} x {subscribe before '
         'start_at / after it from outside / from inside one of its handlers} x {fifo, lifo} x {0, 1, 2 other active objects already '
         'subscribed to the same signal} x {publisher states spied / not} x {publish before the publisher\'s start_at / after it from outside '
-        '/ from inside a handler}; in the subscribe-inside cells two further objects subscribe from inside their own handlers at the same time, each on its own thread; in half of the spied subscribe-after / publish-after cells live spy output is on and the object is busy finishing a step while subscribe() / publish() is called from outside; in a fifth of the cells the running fabric is cleared (clear() without stop()) before the subscriber under test subscribes; every cell is driven under detsched (random / PCT schedules, quiescence between phases); each unique-id '
+        '/ from inside a handler}; in the subscribe-inside cells two further objects subscribe from inside their own handlers at the same time, each on its own thread; in half of the spied subscribe-after / publish-after cells live spy output is on and the object is busy finishing a step while subscribe() / publish() is called from outside; in most subscribe-after cells a publication is made right after subscribe() returned, without quiescence; in a fifth of the cells the running fabric is cleared (clear() without stop()) before the subscriber under test subscribes; every cell is driven under detsched (random / PCT schedules, quiescence between phases); each unique-id '
         'publication made after the subscription must be dispatched exactly once by the subscriber and by every earlier subscriber. '
         'distinct_nontrivial = distinct matrix cells run (x schedule in the thorough tier)')
 CELLS = list(itertools.product((True, False), (True, False), (True, False), ('before', 'after', 'inside'), ('fifo', 'lifo'), (0, 1, 2),
                                (True, False), ('before', 'after', 'inside')))
 CASES = {'quick': len(CELLS), 'thorough': len(CELLS) * 60}
 BUDGET = {'quick': 150, 'thorough': 300}
-REQUIRE = {'cells_run': 600, 'publications_checked': 1500, 'concurrent_subscribes': 150, 'cells_with_fabric_cleared_while_running': 60, 'outside_call_on_busy_object_with_live_spy': 50}
-ASSUME = ['decoration is all-or-none per chart; each phase is followed by quiescence so "later publications" is unambiguous']
+REQUIRE = {'cells_run': 600, 'publications_checked': 1500, 'concurrent_subscribes': 150, 'cells_with_fabric_cleared_while_running': 60, 'outside_call_on_busy_object_with_live_spy': 50, 'publication_right_after_subscribe_returned': 80}
+ASSUME = ['decoration is all-or-none per chart; phases are followed by quiescence so "later publications" is unambiguous - except the publication made right after an outside subscribe() on a running object returned, which is later by program order']
 ANNOUNCE_CASES = True
 
 
@@ -62,7 +62,7 @@ def run_case(ctx, n):
         a.start_at(make_state(h, 'c07_other_%d' % i, True, 'fifo'))
         earlier.append((a, h))
       s.quiesce()
-      # in half of the spied subscribe-after / publish-after cells live spy output is on and the object is busy finishing a step while subscribe() / publish() is called from outside; in a fifth of the cells the running fabric is cleared (ActiveFabric().clear(), no stop) before the subscriber under test
+      # in half of the spied subscribe-after / publish-after cells live spy output is on and the object is busy finishing a step while subscribe() / publish() is called from outside; in most subscribe-after cells a publication is made right after subscribe() returned, without quiescence; in a fifth of the cells the running fabric is cleared (ActiveFabric().clear(), no stop) before the subscriber under test
       # arrives: the earlier subscribers lose their subscriptions (not judged here), later subscriptions must work as ever
       cleared = rng.random() < 0.2
       if cleared:
@@ -72,6 +72,7 @@ def run_case(ctx, n):
       else:
         earlier_checked = earlier
       twins = []
+      immediate = []
       hs = aosim.History()
       sub = aosim.make_ao(hs, name='sub' if s_named else None, instrumented=s_instr)
       st = make_state(hs, 'c07_sub_state', s_spied, kind)
@@ -88,9 +89,15 @@ def run_case(ctx, n):
           ctx.count('outside_call_on_busy_object_with_live_spy')
         sub.start_at(st)
         s.quiesce()
-        if busy:
+        if busy or rng.random() < 0.3:
           sub.post_fifo(Event(signal='C07_NOISE'))
         sub.subscribe(Event(signal='C07_PUB'), queue_type=kind)
+        if rng.random() < 0.6:
+          # a publication made RIGHT AFTER subscribe() returned (no quiescence in between, the object possibly still busy
+          # with an earlier event): it is a "later publication" and must reach the chart
+          immediate.append(n * 10 + 9)
+          AO.ActiveFabric().publish(Event(signal='C07_PUB', payload=n * 10 + 9))
+          ctx.count('publication_right_after_subscribe_returned')
       else:
         # two more objects subscribe from inside their own handlers at the same time (each in its own thread)
         for i in range(2):
@@ -146,7 +153,7 @@ def run_case(ctx, n):
       return
     wit['fabric_cleared_while_running_before_the_subscription'] = cleared
     for who, h in [('subscriber', hs)] + [('earlier subscriber %d' % i, h) for i, (_, h) in enumerate(earlier_checked)] + [('concurrent subscriber %d' % i, h) for i, (_, h) in enumerate(twins)]:
-      for u in uids:
+      for u in uids + (immediate if not who.startswith('concurrent') else []):
         ctx.count('publications_checked')
         c = h.handled.count(u)
         if c != 1:
@@ -162,6 +169,8 @@ def run_case(ctx, n):
               mech.append('concurrent-subscribe-lost')
             if cleared:
               mech.append('after-clear-of-running-fabric')
+            if u in immediate:
+              mech = ['published-right-after-subscribe-returned']
             key = 'C07/publication-not-received/' + ('+'.join(mech) or 'other')
           elif c == 0 and who.startswith('concurrent'):
             key = 'C07/publication-not-received/concurrent-subscribe-lost'
